@@ -191,6 +191,18 @@ func appCases(args []string) {
 			id++
 			w.Emit(appCase{ID: id, Mode: "c10", In: tr.Ints(in), Display: k == 1, Record: k == 0, Chunk: 0, Seed: rng.Int63(), Cls: cls})
 		}
+		// valid frames of MSM types whose payload is too short to hold even the MSM header (1..8 bytes): frames like any other
+		{
+			var in []byte
+			for plen := 1; plen <= 8; plen++ {
+				in = append(in, gen.Frame(rng, gen.MSMTypes[(plen*3)%14], plen, 0)...)
+				if plen%3 == 0 {
+					in = append(in, gen.Frame(rng, 1005, 19, 0)...)
+				}
+			}
+			id++
+			w.Emit(appCase{ID: id, Mode: "c10", In: tr.Ints(in), Display: true, Record: false, Chunk: 0, Seed: rng.Int63(), Cls: "short MSM-typed frames"})
+		}
 		// valid frames of the smallest and largest type numbers (values that mean something special inside the library:
 		// 0, 1, 2 and 4094, 4095 read as signed), between ordinary ones: each is a frame like any other
 		{
